@@ -129,6 +129,9 @@ def run(ctx):
                 c = [dict(x) for x in t]; s = list(e["signs"]); s[1] = -s[1] if s[1] else 1; c[i]["signs"] = s; ctls["order"] = c
     for name in ("decode", "panic", "alloc", "order"):
         if name not in ctls:
+            if ctx.violations:      # every candidate trace was rejected: the violation verdict stands
+                ctx.notes.append("negative control '%s' skipped: no accepted trace left" % name)
+                continue
             raise Undecided("no accepted trace to build the negative control '%s' from" % name)
         if not ctx.validate_traces("CodecPropTrace", "CodecPropTrace.cfg", [ctls[name]]):
             raise Undecided("negative control '%s' accepted: the trace specification does not bind it" % name)
